@@ -15,7 +15,8 @@ SOURCES = ["src/asyncio_taskpool/control/server.py", "src/asyncio_taskpool/contr
 PROOF = {"C19": {"module": "Thm_C19",
                  "theorems": ["C19_serving_until_stop", "C19_clients_served", "C19_disconnect_is_local",
                               "C19_stop", "C19_socket_file", "C19_restart",
-                              "C19_pending_handshake_is_local", "C19_stop_completes"],
+                              "C19_pending_handshake_is_local", "C19_stop_completes",
+                              "C19_stop_waits_for_waiting_session"],
                  "files": ["srv/SModel.v", "srv/SProofs.v", "srv/SStop.v", "srv/Thm_C19.v"]}}
 TRUSTED = [
     "Coq 8.16.1 kernel (coqc; coqchk in the thorough tier); no native_compute",
@@ -47,10 +48,16 @@ def gen_labels(rng, max_len):
             labels.append(f"hello {pending.pop(rng.randrange(len(pending)))}")
         elif x < 0.3:
             labels.append("connect"); nconn += 1
-        elif x < 0.55 and nconn:
+        elif x < 0.50 and nconn:
             labels.append(f"send {rng.randrange(nconn)}")
-        elif x < 0.75 and nconn:
+        elif x < 0.55 and nconn:
+            # a command whose method waits (until-closed): the session stays inside it (open
+            # finding D12: a stop then cannot complete even after that client has left)
+            labels.append(f"sendwait {rng.randrange(nconn)}")
+        elif x < 0.70 and nconn:
             labels.append(f"leave {rng.randrange(nconn)}")
+        elif x < 0.75 and nconn:
+            labels.append(f"abort {rng.randrange(nconn)}")
         elif x < 0.9 and not stopped:
             labels.append("stop"); stopped = True
         elif x < 0.93:
@@ -124,6 +131,10 @@ def job_random(seed, count, max_len, cli_every):
                 conns.append("raw-only" if l == "open" else l)
             prev = n
         first = next((j for j, l in enumerate(conns) if l == "connect"), None)
+        if cli_every and (i % cli_every == 0) and first is not None:
+            # waiting commands are sent through raw clients only (the CLI would block on its reply
+            # and could not be told to leave)
+            labels = [l for l in labels if l not in (f"sendwait {first}", f"abort {first}")]
         ck = ["cli" if (cli_every and (i % cli_every == 0) and j == first) else "raw"
               for j in range(len(conns))]
         res.extend(job_scn(kind, labels, ck, f"rand-{seed}-{i}"))
@@ -153,6 +164,13 @@ CORPUS = [
     ("tcp", ["start", "open", "open", "connect", "hello 1", "send 1", "send 2", "hello 0", "send 0", "stop",
              "send 2", "leave 0", "leave 1"], ["raw", "raw", "raw"]),
     ("tcp", ["start", "open", "stop", "connect", "hello 0", "send 0"], ["raw"]),
+    # open finding D12: a client sends a waiting command and leaves; the stop then never completes
+    ("tcp", ["start", "connect", "sendwait 0", "leave 0", "stop", "connect"], ["raw"]),
+    ("unix", ["start", "connect", "connect", "sendwait 1", "send 0", "leave 1", "stop", "leave 0", "send 1"],
+     ["raw", "raw"]),
+    # ... whereas a connection reset takes the transport with it
+    ("tcp", ["start", "connect", "sendwait 0", "abort 0", "stop", "connect"], ["raw"]),
+    ("unix", ["start", "connect", "connect", "send 0", "abort 0", "send 1", "stop", "abort 1"], ["raw", "raw"]),
     # restart of the same server object after a completed stop
     ("unix", ["start", "connect", "stop", "leave 0", "start", "connect", "send 1", "stop", "send 1", "connect"],
      ["raw", "raw"]),
@@ -211,6 +229,25 @@ def main(pid, tier, seed, replay):
             "harness_errors": [e.get("error", "")[-1500:] for e in errors[:3]]})
         print(f"VIOLATION property={pid} replay={path} no-failing-input-found")
         exit_code = 1
+    # open known findings: the verified model mirrors the behaviour (theorem
+    # C19_stop_waits_for_waiting_session), so such scenarios pass the comparison; they are counted
+    # and reported on every run
+    def shows_d12(r):
+        ls = r.get("lines") or []
+        if r.get("fails") or not ls or "stop" not in r.get("labels", []):
+            return False
+        labs = r["labels"]
+        waited = {l.split()[1] for l in labs if l.startswith("sendwait ")}
+        if not waited:
+            return False
+        last = ls[-1].split(";", 1)[1]
+        conns = last.rsplit("conns=", 1)[1].strip()
+        gone = conns != "-" and all(c.split(":")[0] == "0" for c in conns.split(","))
+        return "done=0" in last and gone
+    for f in core.load_known_findings()["findings"]:
+        if f["property"] == pid and f["status"] == "open":
+            n = sum(1 for r in recs if shows_d12(r))
+            print(f"KNOWN-FINDING: property={pid} {f['what_fails']}" + (f" (reproduced {n}x in this run)" if n else ""))
     hist = collections.Counter()
     for r in recs:
         for l in r.get("labels", []):
